@@ -11,7 +11,7 @@ From Coq Require Import String List Bool Arith Lia.
 From TS Require Import Model.Str Model.Outcome Model.Unicode Model.Types Model.Parse Model.Lang.Common Model.Lang.Decl
                        Model.Lang.TypeScript Model.Lang.Kotlin Model.Lang.Swift Model.Lang.Scala Model.Lang.Go Model.Lang.Python.
 From TS Require Import Spec.C04Spec Spec.C04Readers.
-From TS Require Import Proofs.BackCommon Proofs.C04.
+From TS Require Import Proofs.BackCommon Proofs.C04 Proofs.GoAcronyms.
 Import ListNotations.
 Local Open Scope nat_scope.
 
@@ -535,6 +535,251 @@ Proof.
     rewrite ?expected_plain, ?expected_null_not_ts by discriminate; cbn [c04_expect_of c04e_ref]; congruence.
 Qed.
 End GO.
+
+(* ======================================================================================== Go, alphanumeric acronyms *)
+(* Proofs/GoAcronyms.v: for an ASCII printed type and alphanumeric acronyms the textual rewrite of go.rs:579
+   distributes over the separators of the type syntax, so the decided type is the tree rewritten name by name:
+   a leading `*` (and every `[`, `]`, `,`, digit) survives, and what stands under the `*` is exactly the
+   rewritten translation of T. *)
+Section GOACR.
+Variable uc : unicode.
+Hypothesis Huc : unicode_ok uc.
+Variable cfg : go_config.
+Hypothesis Hnps : go_no_pointer_slice cfg = false.
+Hypothesis Hacr : forallb (forallb ga_alnum) (go_uppercase_acronyms cfg) = true.
+
+Local Notation T := (ga_T cfg).
+
+Lemma go_map_is_gptr x : c04_is_gptr (ga_ty_map T x) = c04_is_gptr x.
+Proof. destruct x; reflexivity. Qed.
+Lemma go_map_strip_gptr x : c04_strip_gptr (ga_ty_map T x) = ga_ty_map T (c04_strip_gptr x).
+Proof. destruct x; reflexivity. Qed.
+Lemma go_strip_gptr_ascii x : ga_ascii (go_show x) -> ga_ascii (go_show (c04_strip_gptr x)).
+Proof. destruct x; auto. cbn [c04_strip_gptr]. change (go_show (GPtr x)) with (42%N :: go_show x). now inversion 1. Qed.
+
+Lemma go_texp_ascii_of g t s x s1 : ga_texp_asciib cfg t = true -> go_texp cfg g t s = Ok (x, s1) -> ga_ascii (go_show x).
+Proof. unfold ga_texp_asciib. intros H. apply andb_true_iff in H as [Hm Hi]. exact (ga_texp_ascii cfg g t Hm Hi s x s1). Qed.
+
+(* `X *T` + `,omitempty` iff Option or default; the reference text is the REWRITTEN translation of T *)
+Theorem go_field_good_acr f g s m s' decl :
+  type_override f Go = None ->
+  (is_optional (fty f) = true -> tmap_get (go_type_mappings cfg) (rtype_display (fty f)) = None) ->
+  ga_texp_asciib cfg (fty f) = true ->
+  go_member_of uc cfg g f s = Ok (m, s') ->
+  exists y s3 s4 y', go_texp cfg g (c04_strip (fty f)) s3 = Ok (y, s4) /\
+    (forall s5, go_acronyms_ty uc cfg y s5 = Ok (y', s5)) /\
+    good_C04 Go (c04_expect_of C04Field (fty f) (has_default f) (go_show y')) (c04r_seen (go_c04_member decl m)) = true.
+Proof.
+  intros Hov Hm Hasc H. unfold go_member_of in H. rewrite Hov in H.
+  apply mbind_ok in H as (x & s1 & Hx & H). apply mbind_ok in H as (gt & s2 & Hgt & H).
+  apply mbind_ok in H as (fname & s3 & _ & H). unfold ret in H. injection H as <- _.
+  pose proof (go_texp_ascii_of _ _ _ _ _ Hasc Hx) as Hax.
+  rewrite (ga_acronyms_ty uc Huc cfg Hacr x s1 Hax) in Hgt. injection Hgt as <- _.
+  destruct (go_texp_strip cfg Hnps _ _ _ _ _ Hm Hx) as (y & s4 & s5 & Hy & Hs & Hh).
+  exists y, s4, s5, (ga_ty_map T y). split; [exact Hy|]. split.
+  { intros s6. apply (ga_acronyms_ty uc Huc cfg Hacr). rewrite <- Hs. now apply go_strip_gptr_ascii. }
+  apply good_intro; unfold go_c04_member;
+    cbn [c04_mk c04r_seen c04s_type_mark c04s_init_mark c04s_base c04s_null_union gm_star gm_type gm_omitempty];
+    rewrite ?(expected_fieldlike C04Field _ _ _ eq_refl), ?expected_null_not_ts by discriminate; cbn [c04_expect_of c04e_ref].
+  - rewrite go_map_is_gptr, Hh. destruct (has_default f), (is_optional (fty f)); reflexivity.
+  - reflexivity.
+  - rewrite go_map_strip_gptr, Hs.
+    destruct (has_default f) eqn:Ed, (is_optional (fty f)) eqn:Eo; cbn [andb negb]; try reflexivity.
+    rewrite <- Hs. destruct x; try reflexivity; discriminate.
+  - reflexivity.
+Qed.
+
+Theorem go_payload_good_acr sh cs sn tag t vsh s v s' :
+  (is_optional t = true -> tmap_get (go_type_mappings cfg) (rtype_display t) = None) ->
+  ga_texp_asciib cfg t = true ->
+  go_variant_of uc cfg sh cs sn tag (VTuple t vsh) s = Ok (v, s') ->
+  exists x p y s3 s4 y', gv_content v = GCType x p /\ go_texp cfg [] (c04_strip t) s3 = Ok (y, s4) /\
+    (forall s5, go_acronyms_ty uc cfg y s5 = Ok (y', s5)) /\
+    forall decl member, good_C04 Go (c04_expect_of C04Payload t false (go_show y')) (c04r_seen (go_c04_typed decl member C04Payload x)) = true.
+Proof.
+  intros Hm Hasc H. unfold go_variant_of in H. apply mbind_ok in H as (vn & s1 & _ & H).
+  apply mbind_ok in H as (vt & s2 & Hvt & H). apply mbind_ok in H as (tp & s3 & _ & H).
+  apply mbind_ok in H as (content & s4 & Hc & H). unfold ret in H. injection H as <- _.
+  cbn [gv_content]. apply mbind_ok in Hvt as (x & s5 & Hx & Hvt). unfold ret in Hvt. injection Hvt as <- _.
+  apply mbind_ok in Hc as (fvt & s6 & Hf & Hc). unfold ret in Hc. injection Hc as <- _.
+  pose proof (go_texp_ascii_of _ _ _ _ _ Hasc Hx) as Hax.
+  rewrite (ga_acronyms_ty uc Huc cfg Hacr x _ Hax) in Hf. injection Hf as <- _.
+  destruct (go_texp_strip cfg Hnps _ _ _ _ _ Hm Hx) as (y & s7 & s8 & Hy & Hs & Hh).
+  exists (ga_ty_map T x), (mem_str (go_show x) cs), y, s7, s8, (ga_ty_map T y). repeat split; [exact Hy| |].
+  { intros s9. apply (ga_acronyms_ty uc Huc cfg Hacr). rewrite <- Hs. now apply go_strip_gptr_ascii. }
+  intros. apply good_intro; cbn [go_c04_typed c04_mk c04r_seen c04s_type_mark c04s_init_mark c04s_base c04s_null_union];
+    rewrite ?expected_plain, ?expected_null_not_ts by discriminate; cbn [c04_expect_of c04e_ref];
+    rewrite ?go_map_is_gptr, ?go_map_strip_gptr; congruence.
+Qed.
+End GOACR.
+
+(* the hypotheses are satisfiable with a real rewrite under the `*`: Option<UserId> with acronym ID is `*UserID` *)
+Example go_field_good_acr_nonvacuous :
+  let cfg := {| go_package := lit "p"; go_type_mappings := []; go_uppercase_acronyms := [lit "ID"]; go_no_version_header := true;
+                go_no_pointer_slice := false; go_version := [] |} in
+  let f := {| fid := {| original := lit "owner_id"; renamed := lit "owner_id"; via_serde_rename := false |};
+              fty := ROption (RSimple (lit "UserId")); fcomments := []; has_default := false; fdecs := [] |} in
+  forallb (forallb ga_alnum) (go_uppercase_acronyms cfg) = true /\ ga_texp_asciib cfg (fty f) = true /\
+  exists m st, go_member_of uc_exec cfg [] f [] = Ok (m, st) /\ gm_name m = lit "OwnerID" /\
+               go_show (gm_type m) = lit "*UserID".
+Proof. cbv zeta. split; [reflexivity|]. split; [reflexivity|]. eexists _, _. repeat split; vm_compute; reflexivity. Qed.
+
+(* ======================================================================================== Go, BOTH values of no_pointer_slice *)
+(* go.rs:119 format_special_type: Option<T> is `*T` unless T is a Vec and no_pointer_slice is set: then it is the
+   translation of T itself (`[]U`, or the mapped text of the Vec).  write_field decides `,omitempty` and its own `*`
+   from the RUST type (field.ty.is_optional(), has_default), never from the printed text. *)
+Lemma good_C04_go_false e s : good_C04_go false e s = good_C04 Go e s.
+Proof.
+  unfold good_C04_go, good_C04. cbn [negb]. rewrite andb_true_r. destruct (c04_fieldlike (c04e_pos e)); reflexivity.
+Qed.
+
+Lemma good_go_intro bare e s :
+  c04s_type_mark s = (c04_expected_optional e && negb bare) ->
+  c04s_init_mark s = (if c04_fieldlike (c04e_pos e) then c04_expected_optional e else c04_expected_optional e && negb bare) ->
+  c04s_base s = c04e_ref e -> c04s_null_union s = false ->
+  good_C04_go bare e s = true.
+Proof.
+  intros H1 H2 H3 H4. unfold good_C04_go. rewrite H1, H2, H3, H4, !Bool.eqb_reflx, str_eqb_refl. reflexivity.
+Qed.
+
+Lemma go_bare_optional nps t : c04_go_bare nps t = true -> is_optional t = true.
+Proof. unfold c04_go_bare. destruct nps; [|discriminate]. destruct t; try discriminate. reflexivity. Qed.
+
+Section GOALL.
+Variable uc : unicode.
+Hypothesis Huc : unicode_ok uc.
+Variable cfg : go_config.
+Hypothesis Hacr : forallb (forallb ga_alnum) (go_uppercase_acronyms cfg) = true.
+
+Local Notation T := (ga_T cfg).
+Local Notation BARE := (c04_go_bare (go_no_pointer_slice cfg)).
+
+Lemma go_texp_strip_any g t s x s' :
+  (is_optional t = true -> tmap_get (go_type_mappings cfg) (rtype_display t) = None) ->
+  go_texp cfg g t s = Ok (x, s') ->
+  exists y s1 s2, go_texp cfg g (c04_strip t) s1 = Ok (y, s2) /\ c04_strip_gptr x = y /\
+                  c04_is_gptr x = is_optional t && negb (BARE t).
+Proof.
+  intros Hm H. destruct t as [id|id ps|e|e n|e|k v|e|p]; cbn [c04_strip is_optional andb];
+    try (exists x, s, s'; split; [exact H|]; split; [destruct x; try reflexivity|]).
+  all: try (cbn [go_texp] in H; unfold mbind, ret, fail, go_add_import in H;
+            repeat match type of H with
+                   | context [match ?e with _ => _ end] => destruct e
+                   end; try discriminate; injection H as <- _; try reflexivity; discriminate).
+  all: try (cbn [go_texp] in H; unfold mbind, ret, fail, go_add_import, mget, mput in H;
+            repeat match type of H with
+                   | context [match ?e with _ => _ end] => destruct e
+                   end; try discriminate; injection H as <- _; reflexivity).
+  cbn [go_texp] in H. rewrite (Hm eq_refl) in H.
+  apply mbind_ok in H as (y & s1 & Hy & H). unfold ret in H.
+  destruct (is_vec e && go_no_pointer_slice cfg) eqn:Ev.
+  - injection H as <- _. apply andb_true_iff in Ev as [Ev Hn]. destruct e; try discriminate Ev.
+    exists y, s, s1. split; [exact Hy|]. unfold c04_go_bare. rewrite Hn. cbn [andb negb].
+    cbn [go_texp] in Hy. match type of Hy with context [tmap_get ?mm ?kk] => destruct (tmap_get mm kk) end.
+    + unfold ret in Hy. injection Hy as <- _. split; reflexivity.
+    + apply mbind_ok in Hy as (z & s2 & _ & Hy). unfold ret in Hy. injection Hy as <- _. split; reflexivity.
+  - injection H as <- _. exists y, s, s1. split; [exact Hy|]. split; [reflexivity|].
+    unfold c04_go_bare. cbn [c04_is_gptr]. destruct e; cbn [is_vec andb] in Ev |- *; rewrite ?andb_false_r; try reflexivity.
+    rewrite Ev. reflexivity.
+Qed.
+
+Lemma go_texp_ascii_of' g t s x s1 : ga_texp_asciib cfg t = true -> go_texp cfg g t s = Ok (x, s1) -> ga_ascii (go_show x).
+Proof. unfold ga_texp_asciib. intros H. apply andb_true_iff in H as [Hm Hi]. exact (ga_texp_ascii cfg g t Hm Hi s x s1). Qed.
+
+(* fields: `,omitempty` iff Option or default; `*` iff Option or default, except on Option<Vec<_>> under
+   no_pointer_slice; the text under the marker is the (rewritten) translation of T *)
+Theorem go_field_good_all f g s m s' decl :
+  type_override f Go = None ->
+  (is_optional (fty f) = true -> tmap_get (go_type_mappings cfg) (rtype_display (fty f)) = None) ->
+  ga_texp_asciib cfg (fty f) = true ->
+  go_member_of uc cfg g f s = Ok (m, s') ->
+  exists y s3 s4 y', go_texp cfg g (c04_strip (fty f)) s3 = Ok (y, s4) /\
+    (forall s5, go_acronyms_ty uc cfg y s5 = Ok (y', s5)) /\
+    good_C04_go (BARE (fty f)) (c04_expect_of C04Field (fty f) (has_default f) (go_show y')) (c04r_seen (go_c04_member decl m)) = true.
+Proof.
+  intros Hov Hm Hasc H. unfold go_member_of in H. rewrite Hov in H.
+  apply mbind_ok in H as (x & s1 & Hx & H). apply mbind_ok in H as (gt & s2 & Hgt & H).
+  apply mbind_ok in H as (fname & s3 & _ & H). unfold ret in H. injection H as <- _.
+  pose proof (go_texp_ascii_of' _ _ _ _ _ Hasc Hx) as Hax.
+  rewrite (ga_acronyms_ty uc Huc cfg Hacr x s1 Hax) in Hgt. injection Hgt as <- _.
+  destruct (go_texp_strip_any _ _ _ _ _ Hm Hx) as (y & s4 & s5 & Hy & Hs & Hh).
+  exists y, s4, s5, (ga_ty_map T y). split; [exact Hy|]. split.
+  { intros s6. apply (ga_acronyms_ty uc Huc cfg Hacr). rewrite <- Hs. now apply go_strip_gptr_ascii. }
+  pose proof (go_bare_optional (go_no_pointer_slice cfg) (fty f)) as Hb.
+  apply good_go_intro; unfold go_c04_member;
+    cbn [c04_mk c04r_seen c04s_type_mark c04s_init_mark c04s_base c04s_null_union gm_star gm_type gm_omitempty c04_expect_of c04e_pos c04_fieldlike];
+    rewrite ?(expected_fieldlike C04Field _ _ _ eq_refl); cbn [c04_expect_of c04e_ref].
+  - rewrite go_map_is_gptr, Hh. destruct (has_default f), (is_optional (fty f)), (BARE (fty f)); try reflexivity; discriminate (Hb eq_refl).
+  - reflexivity.
+  - rewrite go_map_strip_gptr, Hs.
+    destruct (has_default f) eqn:Ed, (is_optional (fty f)) eqn:Eo; cbn [andb negb]; try reflexivity.
+    rewrite <- Hs. cbn [andb] in Hh. destruct x; try reflexivity; discriminate.
+  - reflexivity.
+Qed.
+
+Theorem go_payload_good_all sh cs sn tag t vsh s v s' :
+  (is_optional t = true -> tmap_get (go_type_mappings cfg) (rtype_display t) = None) ->
+  ga_texp_asciib cfg t = true ->
+  go_variant_of uc cfg sh cs sn tag (VTuple t vsh) s = Ok (v, s') ->
+  exists x p y s3 s4 y', gv_content v = GCType x p /\ go_texp cfg [] (c04_strip t) s3 = Ok (y, s4) /\
+    (forall s5, go_acronyms_ty uc cfg y s5 = Ok (y', s5)) /\
+    forall decl member, good_C04_go (BARE t) (c04_expect_of C04Payload t false (go_show y')) (c04r_seen (go_c04_typed decl member C04Payload x)) = true.
+Proof.
+  intros Hm Hasc H. unfold go_variant_of in H. apply mbind_ok in H as (vn & s1 & _ & H).
+  apply mbind_ok in H as (vt & s2 & Hvt & H). apply mbind_ok in H as (tp & s3 & _ & H).
+  apply mbind_ok in H as (content & s4 & Hc & H). unfold ret in H. injection H as <- _.
+  cbn [gv_content]. apply mbind_ok in Hvt as (x & s5 & Hx & Hvt). unfold ret in Hvt. injection Hvt as <- _.
+  apply mbind_ok in Hc as (fvt & s6 & Hf & Hc). unfold ret in Hc. injection Hc as <- _.
+  pose proof (go_texp_ascii_of' _ _ _ _ _ Hasc Hx) as Hax.
+  rewrite (ga_acronyms_ty uc Huc cfg Hacr x _ Hax) in Hf. injection Hf as <- _.
+  destruct (go_texp_strip_any _ _ _ _ _ Hm Hx) as (y & s7 & s8 & Hy & Hs & Hh).
+  exists (ga_ty_map T x), (mem_str (go_show x) cs), y, s7, s8, (ga_ty_map T y). repeat split; [exact Hy| |].
+  { intros s9. apply (ga_acronyms_ty uc Huc cfg Hacr). rewrite <- Hs. now apply go_strip_gptr_ascii. }
+  intros. apply good_go_intro; cbn [go_c04_typed c04_mk c04r_seen c04s_type_mark c04s_init_mark c04s_base c04s_null_union c04_expect_of c04e_pos c04_fieldlike];
+    rewrite ?expected_plain; cbn [c04_expect_of c04e_ref]; rewrite ?go_map_is_gptr, ?go_map_strip_gptr; congruence.
+Qed.
+
+(* alias targets are not acronym-converted *)
+Theorem go_alias_good_all cs a s ds s' :
+  (is_optional (atype a) = true -> tmap_get (go_type_mappings cfg) (rtype_display (atype a)) = None) ->
+  go_decl_of uc cfg cs (ItAlias a) s = Ok (ds, s') ->
+  exists name x y s3 s4, flat_map go_c04_rows ds = [go_c04_typed name [] C04Alias x] /\
+    go_texp cfg [] (c04_strip (atype a)) s3 = Ok (y, s4) /\
+    good_C04_go (BARE (atype a)) (c04_expect_of C04Alias (atype a) false (go_show y)) (c04r_seen (go_c04_typed name [] C04Alias x)) = true.
+Proof.
+  intros Hm H. cbn [go_decl_of] in H. apply mbind_ok in H as (name & s1 & _ & H).
+  apply mbind_ok in H as (x & s2 & Hx & H). unfold ret in H. injection H as <- _.
+  destruct (go_texp_strip_any _ _ _ _ _ Hm Hx) as (y & s3 & s4 & Hy & Hs & Hh).
+  exists name, x, y, s3, s4. repeat split; [exact Hy|].
+  apply good_go_intro; cbn [go_c04_typed c04_mk c04r_seen c04s_type_mark c04s_init_mark c04s_base c04s_null_union c04_expect_of c04e_pos c04_fieldlike];
+    rewrite ?expected_plain; cbn [c04_expect_of c04e_ref]; congruence.
+Qed.
+End GOALL.
+
+(* the tag part never depends on the printed type: with or without a Go type override, for every configuration *)
+Theorem go_field_tag_any uc cfg f g s m s' decl ref :
+  go_member_of uc cfg g f s = Ok (m, s') ->
+  gm_omitempty m = (is_optional (fty f) || has_default f) /\
+  gm_star m = (has_default f && negb (is_optional (fty f))) /\
+  good_C04_go_override (c04_expect_of C04Field (fty f) (has_default f) ref) (c04r_seen (go_c04_member decl m)) = true.
+Proof.
+  intros H. unfold go_member_of in H.
+  apply mbind_ok in H as (x & s1 & Hx & H). apply mbind_ok in H as (gt & s2 & Hgt & H).
+  apply mbind_ok in H as (fname & s3 & _ & H). unfold ret in H. injection H as <- _.
+  cbn [gm_omitempty gm_star]. repeat split. unfold good_C04_go_override, go_c04_member.
+  cbn [c04_mk c04r_seen c04s_init_mark gm_omitempty]. rewrite (expected_fieldlike C04Field _ _ _ eq_refl). apply Bool.eqb_reflx.
+Qed.
+
+(* non-vacuity under no_pointer_slice: Option<Vec<UserId>> with acronym ID is `[]UserID` + omitempty, no `*` *)
+Example go_field_good_all_nonvacuous :
+  let cfg := {| go_package := lit "p"; go_type_mappings := []; go_uppercase_acronyms := [lit "ID"]; go_no_version_header := true;
+                go_no_pointer_slice := true; go_version := [] |} in
+  let f := {| fid := {| original := lit "owner_ids"; renamed := lit "owner_ids"; via_serde_rename := false |};
+              fty := ROption (RVec (RSimple (lit "UserId"))); fcomments := []; has_default := false; fdecs := [] |} in
+  c04_go_bare (go_no_pointer_slice cfg) (fty f) = true /\ ga_texp_asciib cfg (fty f) = true /\
+  exists m st, go_member_of uc_exec cfg [] f [] = Ok (m, st) /\ gm_omitempty m = true /\ gm_star m = false /\
+               go_show (gm_type m) = lit "[]UserID".
+Proof. cbv zeta. split; [reflexivity|]. split; [reflexivity|]. eexists _, _. repeat split; vm_compute; reflexivity. Qed.
 
 (* ======================================================================================== Go, any acronyms *)
 (* the two marker parts write_field decides itself do not depend on the acronym rewrite: for EVERY
